@@ -21,6 +21,7 @@ type Delivery struct {
 	Shadow   bool
 	BodyRaw  []byte // marshalled body as delivered (before the response was filled in)
 	AppError bool   // the application applied the block but the call returned an error: babble never saw the response
+	Topo     int    // number of events the node had inserted when it committed this block (-1: unknown)
 }
 
 // SimApp is the simulator's deterministic application. It implements
@@ -118,7 +119,15 @@ func (a *SimApp) CommitBlock(block hg.Block) (proxy.CommitResponse, error) {
 	full.Body.StateHash = st
 	full.Body.InternalTransactionReceipts = receipts
 
+	topo := -1
+	if a.owner != nil && a.owner.node != nil && !a.shadow {
+		func() {
+			defer func() { recover() }()
+			topo = a.owner.node.SimCore().Hashgraph().SimTopologicalCounter()
+		}()
+	}
 	d := &Delivery{
+		Topo:    topo,
 		Epoch:   a.epoch,
 		Step:    a.c.stepNo,
 		Block:   cp,
